@@ -452,7 +452,7 @@ DEFAULT_COMPONENTS = {
 
 COMMON_ASSUMPTIONS = [
     'one wrapped call = one atomic step (local POSIX file system)',
-    'faults are clean failures (no effect); no lost replies, short writes or power loss',
+    'injected errors are clean failures (the failing call has no effect); short writes and file-size limits are modelled where a check says so; no lost replies, no power loss (page-cache contents survive a kill)',
     'Python 3.12 code path only',
     'sampling, not proof: scenarios are drawn from seeds',
 ]
